@@ -1,8 +1,10 @@
 pub mod common;
 pub mod c01;
+pub mod c15;
+pub mod c17;
 
 use common::Monitor;
 
 pub fn all() -> Vec<Box<dyn Monitor>> {
-    vec![Box::new(c01::C01)]
+    vec![Box::new(c01::C01), Box::new(c15::C15), Box::new(c17::C17)]
 }
